@@ -3,6 +3,7 @@ import Driver.OpsCarddav
 import Driver.OpsCaldav
 import Driver.OpsCodec
 import Driver.OpsCond
+import Driver.OpsPath
 namespace Driver
 
 def dispatch (op : String) (args : List SExp) : Option OpResult :=
@@ -34,6 +35,10 @@ def dispatch (op : String) (args : List SExp) : Option OpResult :=
   | "enum.parse" => opEnumParse args
   | "cond" => opCond args
   | "cond.match" => opCondMatch args
+  | "clean" => opClean args
+  | "localpath" => opLocalPath args
+  | "extpath" => opExtPath args
+  | "rtype" => opRType args
   | "card.filter" => opCardFilter args
   | _ => none
 
